@@ -23,6 +23,7 @@ def items(tier: str) -> List[str]:
         out.extend(raw.space(4, 2))
         out.extend(raw.programs(5, 2, raw.PLAIN_SMALL))
         out.extend(raw.programs(3, 2, multi=True))
+        out.extend(s for s in raw.programs(4, 2, raw.PLAIN_SMALL, multi=True) if "switch" in s or "match" in s)
         out.extend(raw.dead_code())
         out.extend(raw.sub_bodies(5))
     else:
